@@ -29,8 +29,11 @@ class LocalDeme(AbstractDeme):
         sign = -1.0 if self._problem.maximize else 1.0
         self._sign = sign
 
+        lower, upper = self._bounds[:, 0], self._bounds[:, 1]
+
         def fun(x):
-            return sign * self._problem.evaluate(x)
+            # Some scipy methods (e.g. Powell) overshoot a bound by a rounding error.
+            return sign * self._problem.evaluate(np.clip(x, lower, upper))
 
         result = sopt.minimize(
             fun,
@@ -55,6 +58,9 @@ class LocalDeme(AbstractDeme):
         return self._n_evals
 
     def _history_callback(self, intermediate_result) -> None:
-        ind = Individual(np.copy(intermediate_result.x), problem=self._problem)
+        ind = Individual(
+            np.clip(intermediate_result.x, self._bounds[:, 0], self._bounds[:, 1]),
+            problem=self._problem,
+        )
         ind.fitness = self._sign * intermediate_result.fun
         self._run_history.append(ind)
